@@ -16,7 +16,7 @@ RULE = (
     "coefficient; for dS both restrictions present; distinct by spec hash."
 )
 
-PROFILE = {"measures": ["ds", "dS", "dP"], "ids": "simple", "max_integrals": 2, "p_scheme": 0.05}
+PROFILE = {"bessel": True, "measures": ["ds", "dS", "dP"], "ids": "simple", "max_integrals": 2, "p_scheme": 0.05}
 
 
 def nontrivial(spec):
